@@ -1,5 +1,6 @@
 """C18: read-only operands are never modified."""
 from vf import core
+from vf.core import Ob
 from vf.props import apigen as ag
 from vf.props import vecops_gen as vg
 from vf.props import c10, c17
@@ -49,6 +50,17 @@ def obligations(ctx):
                 idx += 1
                 obs.append(vg.vec_ob(op, var, 4, rsz, asz, bsz if op in (3, 4) else 0, vg.STRIDES[idx % 3] if not alias else (0, 0, 0), avx=idx % 2, alias=alias,
                                      pmode=0, p=-5 if op == 5 else 7))
+    # normalization (vector, big and range forms): the source - more, as many or fewer limbs than the result - is bit-identical afterwards (C05 harness, which
+    # snapshots the whole source allocation including stride padding)
+    from vf.props import c05
+    for (k, rsz, asz) in ((19, 1, 3), (19, 2, 3), (19, 3, 1), (62, 1, 2), (2, 2, 3), (19, 0, 2)):
+        for via in (0, 1):
+            obs.append(Ob("normalize/%s/k=%d/res=%d/a=%d" % ("vec" if via == 0 else "big", k, rsz, asz), c05.H, "h_vec",
+                          {"K": k, "NN": 2, "RSZ": rsz, "ASZ": asz, "RSL": 3, "ASL": 4 if via == 0 else 2, "VIA": via, "AVX": (rsz + asz) % 2}, c05.LIBS, unwind=40,
+                          family="normalize: source untouched", desc="vec_znx_normalize_base2k / vec_znx_big_normalize_base2k out of place: digits as in C05 and the source allocation bit-identical"))
+    for (rb, re_, rs, rsz) in ((0, 3, 1, 1), (0, 4, 2, 1), (1, 4, 1, 2)):
+        obs.append(Ob("normalize/range/k=19/b=%d/e=%d/s=%d/res=%d" % (rb, re_, rs, rsz), c05.H, "h_vec",
+                      {"K": 19, "NN": 2, "RSZ": rsz, "RSL": 3, "VIA": 2, "RB": rb, "RE": re_, "RS": rs, "BIGSZ": 4}, c05.LIBS, unwind=40, family="normalize: source untouched"))
     # exported kernels: q120 products (x and y operands), complex-vector kernels (operands a, b), fft tables
     tq = core.tables_dir(ctx, (), ())
     obs += [o for o in c10.product_obs(ctx, tq, [2])]
